@@ -142,3 +142,102 @@ package state
 //@ ensures[check] err == nil <==> (T_kvs(key) != nil && T_kvs(key).ModifyIndex == cidx)
 //@ ensures[result] err == nil ==> e == T_kvs(key)
 //@ modifies nothing
+
+//@ func Store.KVSSet
+//@ props C03 C05
+//@ results err
+//@ requires entry != nil
+//@ ensures[commit-iff-ok] commits() == ite(err == nil, old(commits()) + 1, old(commits()))
+//@ ensures[stored] err == nil ==> T_kvs(entry.Key) != nil && eq(T_kvs(entry.Key).Value, old(entry.Value)) && T_kvs(entry.Key).Flags == old(entry.Flags)
+
+//@ func Store.KVSSetCAS
+//@ props C03 C10
+//@ results ok, err
+//@ requires entry != nil
+//@ ensures[cas-honest] err == nil ==> (ok <==> ((old(entry.ModifyIndex) == 0 && old(T_kvs(entry.Key)) == nil) || (old(entry.ModifyIndex) != 0 && old(T_kvs(entry.Key)) != nil && old(T_kvs(entry.Key).ModifyIndex) == old(entry.ModifyIndex))))
+//@ ensures[reported-iff-committed] commits() == ite(ok, old(commits()) + 1, old(commits()))
+//@ ensures[err-not-ok] err != nil ==> !ok
+//@ ensures[fail-unchanged] !ok && err == nil ==> (forall k string :: T_kvs(k) == old(T_kvs(k))) && (forall t string :: T_index(t) == old(T_index(t)))
+
+//@ func Store.KVSDelete
+//@ props C03 C05
+//@ results err
+//@ ensures[commit-iff-ok] commits() == ite(err == nil, old(commits()) + 1, old(commits()))
+//@ ensures[removed] err == nil ==> T_kvs(key) == nil
+
+//@ func Store.KVSDeleteCAS
+//@ props C03 C10
+//@ results ok, err
+//@ ensures[cas-honest] err == nil ==> (ok <==> (old(T_kvs(key)) == nil || old(T_kvs(key).ModifyIndex) == cidx))
+//@ ensures[reported-iff-committed] commits() == ite(ok, old(commits()) + 1, old(commits()))
+//@ ensures[err-not-ok] err != nil ==> !ok
+//@ ensures[fail-unchanged] !ok && err == nil ==> (forall k string :: T_kvs(k) == old(T_kvs(k))) && (forall k string :: T_tombstones(k) == old(T_tombstones(k))) && (forall t string :: T_index(t) == old(T_index(t)))
+
+//@ func Store.KVSDeleteTree
+//@ props C03 C05
+//@ results err
+//@ ensures[commit-iff-ok] commits() == ite(err == nil, old(commits()) + 1, old(commits()))
+
+//@ func Store.KVSLock
+//@ props C03 C04
+//@ results ok, err
+//@ requires entry != nil
+//@ ensures[ok-iff-free-or-mine] err == nil ==> (ok <==> (old(T_kvs(entry.Key)) == nil || old(T_kvs(entry.Key).Session) == "" || old(T_kvs(entry.Key).Session) == old(entry.Session)))
+//@ ensures[ok-needs-session] ok ==> old(entry.Session) != "" && T_sessions(old(entry.Session)) != nil
+//@ ensures[reported-iff-committed] commits() == ite(ok, old(commits()) + 1, old(commits()))
+//@ ensures[err-not-ok] err != nil ==> !ok
+
+//@ func Store.KVSUnlock
+//@ props C03 C04
+//@ results ok, err
+//@ requires entry != nil
+//@ ensures[ok-iff-holder] err == nil ==> (ok <==> (old(T_kvs(entry.Key)) != nil && old(T_kvs(entry.Key).Session) == old(entry.Session)))
+//@ ensures[reported-iff-committed] commits() == ite(ok, old(commits()) + 1, old(commits()))
+//@ ensures[err-not-ok] err != nil ==> !ok
+
+//@ func kvsGetTxn
+//@ props C03 C06
+//@ results ridx, e, err
+//@ ensures[key-rejected] err == nil <==> key != ""
+//@ ensures[entry] err == nil ==> e == T_kvs(key)
+//@ ensures[index] err == nil ==> ridx == ite(idxVal("kvs") >= idxVal("tombstones"), idxVal("kvs"), idxVal("tombstones"))
+//@ modifies nothing
+
+//@ func kvsListEntriesTxn
+//@ props C03 C06
+//@ results lindex, ents, err
+//@ ensures[sound] err == nil ==> forall j int :: 0 <= j && j < len(ents) ==> ents[j] != nil && T_kvs(ents[j].Key) == ents[j] && prefixOf(prefix, ents[j].Key)
+//@ ensures[complete] err == nil ==> forall k string :: prefixOf(prefix, k) && T_kvs(k) != nil ==> exists j int :: 0 <= j && j < len(ents) && ents[j] == T_kvs(k)
+//@ ensures[index-bound] err == nil ==> forall k string :: prefixOf(prefix, k) && T_kvs(k) != nil ==> T_kvs(k).ModifyIndex <= lindex
+//@ ensures[index-attained] err == nil ==> lindex == 0 || exists j int :: 0 <= j && j < len(ents) && ents[j].ModifyIndex == lindex
+//@ modifies nothing
+//@ loop 1 invariant[pos] 0 <= itPos(entries) && itPos(entries) <= itLen(entries)
+//@ loop 1 invariant[cursor] (entry != nil ==> itPos(entries) >= 1 && entry == itElem(entries, itPos(entries)-1)) && (entry == nil ==> itPos(entries) == itLen(entries))
+//@ loop 1 invariant[collected] len(ents) == ite(entry != nil, itPos(entries) - 1, itPos(entries)) && forall j int :: 0 <= j && j < len(ents) ==> ents[j] == itElem(entries, j).(*structs.DirEntry)
+//@ loop 1 invariant[max-bound] forall j int :: 0 <= j && j < len(ents) ==> itElem(entries, j).(*structs.DirEntry).ModifyIndex <= lindex
+//@ loop 1 invariant[max-attained] lindex == 0 || exists j int :: 0 <= j && j < len(ents) && itElem(entries, j).(*structs.DirEntry).ModifyIndex == lindex
+
+//@ func Graveyard.GetMaxIndexTxn
+//@ props C03 C06
+//@ results gidx, err
+//@ ensures[bound] err == nil ==> forall k string :: prefixOf(prefix, k) && T_tombstones(k) != nil ==> T_tombstones(k).Index <= gidx
+//@ ensures[attained] err == nil ==> gidx == 0 || exists k string :: prefixOf(prefix, k) && T_tombstones(k) != nil && T_tombstones(k).Index == gidx
+//@ modifies nothing
+//@ loop 1 invariant[pos] 0 <= itPos(stones) && itPos(stones) <= itLen(stones)
+//@ loop 1 invariant[cursor] (stone != nil ==> itPos(stones) >= 1 && stone == itElem(stones, itPos(stones)-1)) && (stone == nil ==> itPos(stones) == itLen(stones))
+//@ loop 1 invariant[max-bound] forall j int :: 0 <= j && j < ite(stone != nil, itPos(stones) - 1, itPos(stones)) ==> itElem(stones, j).(*Tombstone).Index <= lindex
+//@ loop 1 invariant[max-attained] lindex == 0 || exists j int :: 0 <= j && j < ite(stone != nil, itPos(stones) - 1, itPos(stones)) && itElem(stones, j).(*Tombstone).Index == lindex
+
+//@ pure tableMax() uint64 = ite(idxVal("kvs") >= idxVal("tombstones"), idxVal("kvs"), idxVal("tombstones"))
+
+//@ func Store.kvsListTxn
+//@ props C03 C06
+//@ results ridx, ents, err
+//@ ensures[sound] err == nil ==> forall j int :: 0 <= j && j < len(ents) ==> ents[j] != nil && T_kvs(ents[j].Key) == ents[j] && prefixOf(prefix, ents[j].Key)
+//@ ensures[complete] err == nil ==> forall k string :: prefixOf(prefix, k) && T_kvs(k) != nil ==> exists j int :: 0 <= j && j < len(ents) && ents[j] == T_kvs(k)
+//@ ensures[index-whole-tree] err == nil && prefix == "" ==> ridx == tableMax()
+//@ ensures[index-bound-entries] err == nil && prefix != "" ==> forall k string :: prefixOf(prefix, k) && T_kvs(k) != nil ==> T_kvs(k).ModifyIndex <= ridx
+//@ ensures[index-bound-tombstones] err == nil && prefix != "" ==> forall k string :: prefixOf(prefix, k) && T_tombstones(k) != nil ==> T_tombstones(k).Index <= ridx
+//@ ensures[index-exact] err == nil && prefix != "" ==> (ridx != 0 && ((exists j int :: 0 <= j && j < len(ents) && ents[j].ModifyIndex == ridx) || (exists k string :: prefixOf(prefix, k) && T_tombstones(k) != nil && T_tombstones(k).Index == ridx))) ||
+//@      (ridx == tableMax() && (forall k string :: prefixOf(prefix, k) && T_kvs(k) != nil ==> T_kvs(k).ModifyIndex <= 0) && (forall k string :: prefixOf(prefix, k) && T_tombstones(k) != nil ==> T_tombstones(k).Index <= 0))
+//@ modifies nothing
